@@ -760,19 +760,19 @@ def parse_instr(mod, s):
         dt = p.parse_type()
         return I(op, dest, dt, (src,), text=text)
     if op == "load":
-        p.accept("atomic")
+        at = p.accept("atomic")
         p.accept("volatile")
         ty = p.parse_type()
         p.expect(",")
         ptr = p.parse_typed_value()
-        return I(op, dest, ty, (ptr,), text=text)
+        return I(op, dest, ty, (ptr,), flags=(("atomic",) if at else ()), text=text)
     if op == "store":
-        p.accept("atomic")
+        at = p.accept("atomic")
         p.accept("volatile")
         v = p.parse_typed_value()
         p.expect(",")
         ptr = p.parse_typed_value()
-        return I(op, None, v[2], (v, ptr), text=text)
+        return I(op, None, v[2], (v, ptr), flags=(("atomic",) if at else ()), text=text)
     if op == "getelementptr":
         inb = p.accept("inbounds")
         bt = p.parse_type()
